@@ -2,7 +2,7 @@
    Statements only.  (a) the multiply-back checkers by which every row / solve returned by the library is judged are
    complete oracles (sound, and unique answer for a non-singular matrix); singularity is decided by the verified
    elimination.  (b) representation level: see Fac/Factor.v (check_repr_sound). *)
-From QSX Require Import Fac.GaussSound.
+From QSX Require Import Fac.GaussSound Fac.FactorSound.
 Local Open Scope Q_scope.
 
 (* an accepted row IS row i of the inverse computed by the verified elimination *)
@@ -89,3 +89,57 @@ Theorem C13_inverse_two_sided :
     feq n n (fmul n (mget X) (mget A)) fid /\ feq n n (fmul n (mget A) (mget X)) fid.
 Proof. intros n A X H. split; [exact (inverse_left n A X H) | exact (inverse_right n A X H)]. Qed.
 Print Assumptions C13_inverse_two_sided.
+
+(* (b) representation level (Fac/Factor.v): the eta-file / permuted-U representation held in the factor_work struct, walked
+   by ftran / btran exactly as the dense-vector C loops do (short cuts for zero entries included).
+   Linearity: each solve is the linear map given by its values on the unit vectors - the `!= 0` short cuts are inert. *)
+Theorem C13_ftran_lin :
+  forall r, wf_repr r = true -> forall a k, (k < f_dim r)%nat ->
+    qnth (ftran_dense r a) k == sumn (f_dim r) (fun i => qnth a i * qnth (ftran_dense r (unitv (f_dim r) i)) k).
+Proof. exact ftran_lin. Qed.
+Print Assumptions C13_ftran_lin.
+
+Theorem C13_btran_lin :
+  forall r, wf_repr r = true -> forall a k, (k < f_dim r)%nat ->
+    qnth (btran r a) k == sumn (f_dim r) (fun i => qnth a i * qnth (btran r (unitv (f_dim r) i)) k).
+Proof. exact btran_lin. Qed.
+Print Assumptions C13_btran_lin.
+
+(* check_repr_sound: a representation that multiplies back on the unit vectors solves EVERY system exactly *)
+Theorem C13_check_repr_sound :
+  forall r B, check_repr r B = true ->
+    forall a, is_solution (f_dim r) B (ftran_dense r a) a /\ is_left_solution (f_dim r) B (btran r a) a.
+Proof. exact check_repr_sound. Qed.
+Print Assumptions C13_check_repr_sound.
+
+Theorem C13_check_repr_nonsingular : forall r B, check_repr r B = true -> nonsingular (f_dim r) B.
+Proof. exact check_repr_nonsingular. Qed.
+Print Assumptions C13_check_repr_nonsingular.
+
+(* the hypotheses are satisfiable: the representation dumped from the library for B = [[2,1,0],[1,3,1],[0,1,4]]
+   (h_fac: FNEW 3 / FCOL .. / FACTOR / FDUMP), and the one after replacing column 1 by (1,0,5) (one row eta) *)
+Definition ex_repr : repr :=
+  {| f_dim := 3;
+     f_lc := [(2%nat, [(1%nat, 1#4)]); (0%nat, [(1%nat, 11#4)]); (1%nat, [])];
+     f_lr := [(2%nat, []); (0%nat, []); (1%nat, [(2%nat, 1#4); (0%nat, 11#4)])];
+     f_er := [];
+     f_uc := [[(1%nat, -9#2); (0%nat, 2)]; [(0%nat, 1); (2%nat, 1)]; [(2%nat, 4)]];
+     f_ur := [[(1%nat, 1); (0%nat, 2)]; [(0%nat, -9#2)]; [(2%nat, 4); (1%nat, 1)]];
+     f_rperm := [2; 0; 1]%nat; f_cperm := [2; 1; 0]%nat |}.
+Example C13_check_repr_example : check_repr ex_repr [[2;1;0];[1;3;1];[0;1;4]] = true.
+Proof. vm_compute. reflexivity. Qed.
+
+Definition ex_repr_upd : repr :=
+  {| f_dim := 3;
+     f_lc := [(2%nat, [(1%nat, 1#4)]); (0%nat, [(1%nat, 11#4)]); (1%nat, [])];
+     f_lr := [(2%nat, []); (0%nat, []); (1%nat, [(2%nat, 1#4); (0%nat, 11#4)])];
+     f_er := [(0%nat, [(1%nat, -4#9)])];
+     f_uc := [[(1%nat, -9#2)]; [(0%nat, -7#9); (1%nat, -4); (2%nat, 5)]; [(2%nat, 4)]];
+     f_ur := [[(1%nat, -7#9)]; [(0%nat, -9#2); (1%nat, -4)]; [(2%nat, 4); (1%nat, 5)]];
+     f_rperm := [2; 1; 0]%nat; f_cperm := [2; 0; 1]%nat |}.
+Example C13_check_repr_example_update : check_repr ex_repr_upd [[2;1;0];[1;0;1];[0;5;4]] = true.
+Proof. vm_compute. reflexivity. Qed.
+
+(* (c) the Forrest-Tomlin update as an operation on repr (update_preserves) is NOT modelled: the update routine is
+   explored (checks/C13.py: after every ILLfactor_update the dumped representation must pass check_repr for the
+   matrix with the replaced column, and the model's walk must reproduce the library's solves). *)
